@@ -7,7 +7,7 @@
    known h = h is in one of the documented classes on which the unchanged code deviates *)
 From Coq Require Import List NArith Bool Permutation.
 From Coq Require Import Strings.Byte.
-From HN Require Import Base.Bytes Model.TlsHello Model.Ja4 Spec.Ja4Spec Proofs.TlsWireProofs Proofs.Ja4Proofs.
+From HN Require Import Base.Bytes Model.TlsHello Model.Ja4 Spec.Ja4Spec Proofs.TlsWireProofs Proofs.Ja4Proofs Proofs.Ja4Shape.
 Import ListNotations.
 Open Scope N_scope.
 
@@ -149,3 +149,29 @@ From HN Require Gen.Consts Proofs.ConstTieJa4.
 Theorem C04_grease_table_matches_source : HN.Model.Ja4.TLS_GREASE_VALUES = Consts.src_tls_grease_values.
 Proof. exact ConstTieJa4.grease_values_tie. Qed.
 Print Assumptions C04_grease_table_matches_source.
+
+(* Shape laws of the transcription of generate_ja4_with_order, for every signature value. *)
+Theorem C04_ja4_a_has_ten_characters :
+  forall s o, length (HN.Model.Ja4.ja4_a (generate_ja4_with_order s o)) = 10%nat.
+Proof. exact ja4_a_len. Qed.
+Check C04_ja4_a_has_ten_characters :
+  forall s o, length (HN.Model.Ja4.ja4_a (generate_ja4_with_order s o)) = 10%nat.
+Print Assumptions C04_ja4_a_has_ten_characters.
+
+Theorem C04_ja4_a_order_independent :
+  forall s, HN.Model.Ja4.ja4_a (generate_ja4 s) = HN.Model.Ja4.ja4_a (generate_ja4_original s).
+Proof. exact ja4_a_order_independent. Qed.
+Print Assumptions C04_ja4_a_order_independent.
+
+Theorem C04_ja4_full_and_raw_share_parts :
+  forall s o, let p := generate_ja4_with_order s o in
+    HN.Model.Ja4.ja4_full p = HN.Model.Ja4.ja4_a p ++ underscore ++ hash12 (HN.Model.Ja4.ja4_b p) ++ underscore ++ hash12 (HN.Model.Ja4.ja4_c p)
+    /\ HN.Model.Ja4.ja4_raw p = HN.Model.Ja4.ja4_a p ++ underscore ++ HN.Model.Ja4.ja4_b p ++ underscore ++ HN.Model.Ja4.ja4_c p.
+Proof. exact ja4_full_raw_same_parts. Qed.
+Print Assumptions C04_ja4_full_and_raw_share_parts.
+
+Theorem C04_no_cipher_hashes_to_zeros :
+  forall s o, filter_grease_values (s_cipher_suites s) = [] ->
+    HN.Model.Ja4.ja4_b (generate_ja4_with_order s o) = [] /\ hash12 (HN.Model.Ja4.ja4_b (generate_ja4_with_order s o)) = bs "000000000000".
+Proof. exact ja4_no_ciphers. Qed.
+Print Assumptions C04_no_cipher_hashes_to_zeros.
